@@ -10,6 +10,7 @@ every tie-break in exact rationals), within the printed precision.
 import itertools
 import os
 from fractions import Fraction
+import numpy as np
 from mc.core import Shard
 from mc import fixtures, clifix
 from mc import refmodel as R
@@ -148,7 +149,8 @@ def check_tree(sh, text, labels, arrs, case):
 	D = {}
 	for i in range(n):
 		for j in range(i + 1, n):
-			D[(i, j)] = R.f32_bits_to_fraction(f32bits(jaccarddist(arrs[i], arrs[j])))
+			# the true distance of the two signatures, rounded once to float32 - from the model, not from the library's distance function
+			D[(i, j)] = R.f32_bits_to_fraction(R.ref_jaccard_f32(np.asarray(arrs[i]).tolist(), np.asarray(arrs[j]).tolist()))
 	allowed = R.ref_upgma_all(D)
 	got = []
 	for i in range(n):
